@@ -21,7 +21,7 @@ RULE = ("ordered 1:1 binding lists (empty prefix, IRIs with and without '/' or '
         "re-serialization writes exactly those. Non-trivial: the binding list causes >= 1 eviction or contains the empty "
         "prefix; distinct by hash of (config, bindings, statements).")
 ASSUMPTIONS = [
-    "binding sets are 1:1 and avoid rdflib's default prefixes/namespaces, so rdflib's own bind() never has to rename",
+    "binding sets avoid rdflib's default prefixes/namespaces and are 1:1 for rdflib stores (so rdflib's own bind() never has to rename); generic sinks also get two prefixes for one namespace",
 ]
 ANCHORS = ["pyjelly/serialize/encode.py", "pyjelly/serialize/streams.py", "pyjelly/parse/decode.py",
            "pyjelly/integrations/generic/serialize.py", "pyjelly/integrations/generic/parse.py",
@@ -61,7 +61,8 @@ def make_case(rng, integ: str):
                 seen.add(T.norm_stmt(s))
                 out.append(s)
         stmts = out
-    ns = workloads.bindings(rng, v.ns if rng.random() < .6 else None, k=rng.randint(1, 8), odd_labels=integ == "generic")
+    ns = workloads.bindings(rng, v.ns if rng.random() < .6 else None, k=rng.randint(1, 8), odd_labels=integ == "generic",
+                           shared_iri=integ == "generic")
     pe = rng.random() < .85
     np_, nn, nd = gen.need_of(stmts, phys, pe, [("ns", a, b) for a, b in ns])
     small = rng.random() < .6
@@ -107,7 +108,8 @@ def judge_generic(cfg, stmts, ns, mode):
             return {"clause": "declaration-with-option-off", "summary": f"{integ}: Prefix events although the option is off"}
         if stmts_of(ev_on) != want_st or stmts_of(ev_off) != want_st:
             return {"clause": "statements-changed", "summary": f"{integ}: statements differ with declarations on/off"}
-    w = _wire_checks(d_on, d_off, on["delimited"], bool(ns))
+    w = _wire_checks(d_on, d_off, on["delimited"], bool(ns)) or \
+        _other_readers(d_on, want_ns, ["generic"] if mode == "generic" or not rdflib_storable(ns) else ["generic", "rdflib"])
     if w:
         return w
     # sink.parse + re-serialization of what was read
@@ -127,6 +129,40 @@ def judge_generic(cfg, stmts, ns, mode):
     again = prefix_events(pj.parse("generic", "flat", out.getvalue()))
     if again != want_ns:
         return _ns_diff("reserialized-declarations-differ", "generic", again, want_ns)
+    return None
+
+
+def rdflib_storable(ns: list) -> bool:
+    """Can an rdflib store hold this binding list as it is?  (rdflib refuses prefixes with white space and keeps one prefix
+    per namespace - its rules, not pyjelly's.)"""
+    return len({i for _p, i in ns}) == len(ns) and not any(any(c.isspace() for c in p) for p, _i in ns)
+
+
+def _other_readers(d_on: bytes, want_ns: list, integs) -> dict | None:
+    """The same declarations through the readers that hand out STORES: parse_jelly_grouped (bindings of the sinks, in
+    order, concatenated) and parse_jelly_to_graph (bindings of the one sink).  rdflib Dataset sinks carry rdflib's own
+    default bindings (see tier (ii) below): discounted."""
+    for integ in integs:
+        try:
+            sinks = list(pj.iter_grouped(integ, d_on))
+            if integ == "generic":
+                tg = [(e[1], e[2]) for e in pj.parse("generic", "to_graph", d_on) if e[0] == "ns"]
+            else:
+                from pyjelly.integrations.rdflib import parse as rparse
+                store = rparse.parse_jelly_to_graph(io.BytesIO(d_on), graph_factory=lambda: rdflib.Graph(bind_namespaces="none"),
+                                                    dataset_factory=lambda: rdflib.Dataset(default_union=False))
+                tg = _rd_ns(store)
+        except Exception as e:  # noqa: BLE001
+            return {"clause": "parser-raised", "summary": f"{integ} grouped/to_graph: {type(e).__name__}: {e}"}
+        grouped = [(e[1], e[2]) for s in sinks for e in s[1]]
+        if integ == "rdflib":
+            grouped = [b for b in grouped if b not in _rdflib_defaults()]
+            tg = [b for b in tg if b not in _rdflib_defaults()]
+        if grouped != want_ns:
+            return _ns_diff("grouped-sink-namespaces-differ", f"{integ}:parse_jelly_grouped (bindings of the sinks, concatenated)",
+                            grouped, want_ns)
+        if tg != want_ns:
+            return _ns_diff("to-graph-namespaces-differ", f"{integ}:parse_jelly_to_graph", tg, want_ns)
     return None
 
 
@@ -193,7 +229,7 @@ def judge_rdflib(cfg, stmts, ns, mode):
             return {"clause": "declaration-with-option-off", "summary": f"{integ}: Prefix events although the option is off"}
         if set(stmts_of(ev_on)) != want_st or set(stmts_of(ev_off)) != want_st:
             return {"clause": "statements-changed", "summary": f"{integ}: statements differ with declarations on/off"}
-    w = _wire_checks(d_on, d_off, on["delimited"], bool(ns))
+    w = _wire_checks(d_on, d_off, on["delimited"], bool(ns)) or _other_readers(d_on, want_ns, ["rdflib", "generic"])
     if w:
         return w
     # tier (ii): reader without default bindings: exactly the declared ones, in order; re-serialization fixpoint
